@@ -166,6 +166,10 @@ def replay_case(arg):
         out.append(("construct/%s" % form, 0, b0, None))
         return out
     prev_obj = None
+    # an iterator opened before the history and advanced by one row after every step: like an iterator over a list of
+    # rows it must hand out row k as it is NOW (after the writes made so far), walk into appended rows, and stay
+    # exhausted once it ran off the end
+    it, it_pos, it_done = iter(a), 0, False
     for i, op in enumerate(hist):
         exp = trail[i + 1]["rows"]
         expres = trail[i + 1]["res"]
@@ -253,6 +257,22 @@ def replay_case(arg):
         if bad:
             out.append((site, i + 1, bad, {"expected": exp, "iteration": _safe_rows(a)}))
             return out
+        if name == "augmented":            # the name is rebound to a new object: a new iteration starts
+            it, it_pos, it_done = iter(a), 0, False
+        else:
+            try:
+                got_row = [int(v) for v in np.asarray(next(it)).reshape(-1)]
+            except StopIteration:
+                got_row = None
+            want_row = None if it_done or it_pos >= len(exp) else exp[it_pos]
+            if got_row != want_row:
+                out.append((site, i + 1, ["open-iterator"], {"position": it_pos, "got": got_row, "expected": want_row,
+                                                             "rows_now": exp}))
+                return out
+            if want_row is None:
+                it_done = True
+            else:
+                it_pos += 1
         if name != "callerscribbles":
             # a write to the array must not show in the caller's buffers either
             if any(not np.array_equal(c_, c0) for c_, c0 in zip(callers, callers0)):
